@@ -218,6 +218,31 @@ def modDownQPtoQNTTX (F : Scaling.Xf) (TQ TP : Scaling.Tabs) (Q P : List Nat) (l
 
 theorem modDownQPtoQNTTX_std : modDownQPtoQNTTX Scaling.xfStd = modDownQPtoQNTT := rfl
 
+/-- `rlwe.Evaluator.ModDown(levelQ, levelP, ctQP, ct)` (core/rlwe/evaluator_gadget_product.go) on ONE polynomial
+    of the pair (`Value[0]` and `Value[1]` are treated alike), distinct buffers, for either ring type.
+    `levelP = none` is Go's `levelP = -1` (no special modulus: copy / change of domain only).
+    Returns (rows of `ct.Value[i]`, rows of `ctQP.Value[i].Q` after the call, rows of `ctQP.Value[i].P` after the
+    call): in the NTT → coefficient branch with a special modulus the code transforms `ctQP` IN PLACE
+    (`INTTLazy`) before `ModDownQPtoQ`, so `ctQP` is rewritten there (and nowhere else). -/
+def evalModDown (F : Scaling.Xf) (TQ TP : Scaling.Tabs) (Q P : List Nat) (levelQ : Nat) (levelP : Option Nat)
+    (qpNTT ctNTT : Bool) (pQ pP : Rows) : Rows × Rows × Rows :=
+  let pQ' := pQ.take (levelQ + 1)
+  match levelP with
+  | some lp =>
+    if qpNTT then
+      if ctNTT then (modDownQPtoQNTTX F TQ TP Q P levelQ lp pQ pP, pQ, pP)
+      else
+        let q' := (List.range (levelQ + 1)).map fun i => F.inttLazy (Scaling.tab TQ i) (row pQ i)
+        let p' := (List.range (lp + 1)).map fun j => F.inttLazy (Scaling.tab TP j) (row pP j)
+        (modDownQPtoQ Q P levelQ lp q' p', q' ++ pQ.drop (levelQ + 1), p' ++ pP.drop (lp + 1))
+    else
+      let o := modDownQPtoQ Q P levelQ lp pQ pP
+      if ctNTT then (Scaling.nttRowsX F TQ levelQ o, pQ, pP) else (o, pQ, pP)
+  | none =>
+    if qpNTT = ctNTT then (pQ', pQ, pP)
+    else if qpNTT then (Scaling.inttRowsX F TQ levelQ pQ, pQ, pP)
+    else (Scaling.nttRowsX F TQ levelQ pQ, pQ, pP)
+
 /-! ### small-norm extension -/
 
 /-- `ringqp.Ring.ExtendBasisSmallNormAndCenter(polyInQ, levelP, polyOutQ, polyOutP)`: rows of polyOutP -/
